@@ -120,6 +120,17 @@ func (w *procWorld) sent(n int) {
 	w.mu.Unlock()
 }
 
+// newPillAt: a Stop/Poison issued from inside the Stopped handler must not be signalled before that
+// handler has returned ("done only after the target has handled Stopped").
+func (w *procWorld) newPillAt(ctx context.Context, insideStopped bool) {
+	w.newPill(ctx)
+	if insideStopped && ctx.Err() != nil {
+		w.mu.Lock()
+		w.pills[len(w.pills)-1].early = true
+		w.mu.Unlock()
+	}
+}
+
 func (w *procWorld) newPill(ctx context.Context) {
 	pr := &pillRec{ctx: ctx, seen: make(chan struct{})}
 	w.mu.Lock()
@@ -176,9 +187,9 @@ func (s *scripted) Receive(c *actor.Context) {
 			w.sent(int(a[1].(float64)))
 			c.Engine().Send(c.PID(), userMsg{int(a[1].(float64))})
 		case "poison":
-			w.newPill(c.Engine().Poison(c.PID()))
+			w.newPillAt(c.Engine().Poison(c.PID()), key == "X")
 		case "stop":
-			w.newPill(c.Engine().Stop(c.PID()))
+			w.newPillAt(c.Engine().Stop(c.PID()), key == "X")
 		case "panic":
 			panic("scripted panic")
 		case "panic_internal":
